@@ -78,15 +78,6 @@ Qed.
 
 (* m1: the run that skips more; m2: the run that executes the dead stores.  Runs of m2
    ending in a tolerated failure (fuel, variable-missing sites) are not compared. *)
-(* X = true: the four panic sites the resolver rules out are not compared either (round 4) *)
-Definition tolX {A} (X : bool) (r : res A) : Prop := tolr r \/ (X = true /\ xs r).
-
-Lemma tolX_bind {A B} X (m : M A) (f : A -> M B) : tolX X (snd m) -> tolX X (snd (bindM m f)).
-Proof.
-  intros [T|[HX T]]; [left; apply tolr_bind; exact T|right; split; [exact HX|]].
-  destruct m as [o r]. destruct r as [a|e|p| |]; cbn in T; try contradiction. cbn. exact T.
-Qed.
-
 Definition relMX {A} (X : bool) (R : A -> A -> Prop) (m1 m2 : M A) : Prop :=
   tolX X (snd m2) \/
   (fst m1 = fst m2 /\
@@ -1332,9 +1323,6 @@ Proof.
       exists r; (split; [exact E|]); [left; left; exact T|right; exact Hv].
 Qed.
 
-Lemma tolX_bind_nil {A B} X (f : A -> M B) r : tolX X r -> tolX X (snd (bindM ([], r) f)).
-Proof. intros T. apply (tolX_bind X ([], r) f). exact T. Qed.
-
 Lemma pruned_exec n ax L Ds t s1 s2 :
   ds_wf Ds -> pruned_store_ok c Ds L t = true -> inv c ax L Ds s1 s2 ->
   tolX (d_calls c) (snd (exec (pb_of c) eps n t s2)) \/
@@ -1497,12 +1485,10 @@ Theorem plan_ok4_sound_lemma prog ss fs eps fuel o e :
   run_impl (Some (ss, fs)) eps fuel prog = (o, e).
 Proof.
   unfold plan_ok4. cbv zeta. cbn [x_main x_checked x_residual].
-  set (v := plan_ok prog ss fs).
+  set (v := plan_ok_x prog ss fs).
   destruct (v_residual v) as [ss2 fs2] eqn:Ev. cbn [fst snd].
   intros Hv Hd Hrun Htol.
-  assert (Ht : tol_ending e = false).
-  { unfold tol_ending_x in Htol. apply orb_false_iff in Htol. exact (proj1 Htol). }
-  apply (plan_ok_sound_lemma prog ss fs eps fuel o e Hv); [|exact Ht].
+  apply (plan_ok_x_sound_lemma prog ss fs eps fuel o e Hv); [|exact Htol].
   fold v. rewrite Ev. eapply ds_sound_x; eauto.
 Qed.
 
